@@ -1979,6 +1979,39 @@ def z3_to_sexp(z3, e):
     return ["?" + sexp.enc(str(e.decl()))] + ch
 
 
+def z3_capture(z3, e, outer=()):
+    """A quantifier whose bound name equals the name of an enclosing quantifier or of a constant in
+    its body: z3py's abstraction of the named constant would have captured that occurrence."""
+    if isinstance(e, bool):
+        return None
+    if z3.is_quantifier(e):
+        names = [e.var_name(i) for i in range(e.num_vars())]
+        body = e.body()
+        for nm in names:
+            if nm in outer or nm in z3_const_names(z3, body):
+                return nm
+        return z3_capture(z3, body, tuple(names) + tuple(outer))
+    if z3.is_app(e):
+        for c in e.children():
+            r = z3_capture(z3, c, outer)
+            if r is not None:
+                return r
+    return None
+
+
+def z3_const_names(z3, e, acc=None):
+    if acc is None:
+        acc = set()
+    if z3.is_quantifier(e):
+        z3_const_names(z3, e.body(), acc)
+    elif z3.is_app(e):
+        if e.decl().kind() == z3.Z3_OP_UNINTERPRETED and e.decl().arity() == 0:
+            acc.add(e.decl().name())
+        for c in e.children():
+            z3_const_names(z3, c, acc)
+    return acc
+
+
 class FakeSolver:
     """solve_core only uses `.ctx` and `.add`; recording the additions keeps Z3 out of the tie."""
 
@@ -2023,6 +2056,10 @@ def impl_solve_core(H, t, limit=60):
         with time_limit(limit):
             zw.solve_core(s, t)
         res = ["ok"] + [z3_to_sexp(H.z3, a) for a in s.items]
+        for a in s.items:
+            nm = z3_capture(H.z3, a)
+            if nm is not None:
+                res = ["capture", sexp.enc(nm)]
     except InterceptionUnavailable:
         raise
     except zw.Z3Exception:
@@ -2076,6 +2113,12 @@ def correspondence(ctx, H, goals, label):
     if out is None:
         ctx.broken("correspondence:c06:driver", "model driver unavailable")
         return
+    # the proved property of the model, observed: every assertion list is capture-free
+    nc = ctx.lean_driver(EXE, [l.replace("(solve ", "(nocapture ", 1) for l in lines]) or []
+    for k, o in enumerate(nc):
+        if o == "F":
+            ctx.broken("model:c06:capture", "the model's assertions are not capture-free on %s" % lines[k])
+        ctx.count("corr:%s:model-nocapture:%s" % (label, "T" if o == "T" else ("F" if o == "F" else "error")))
     ndis = 0
     for k, (a, b) in enumerate(zip(impl, out)):
         if "(xor " in lines[k] and a != b and a.startswith("(ok"):
@@ -2118,13 +2161,39 @@ def gen_lean(ctx):
     assert thms is not None, "untranslatable: norm_thms not found"
     assert isinstance(flag, bool), "untranslatable: check_z3 is not a literal bool"
     items = ", ".join('("%s", %s)' % (n, "true" if b else "false") for n, b in thms)
-    return ("/- GENERATED by harness/props/c06.py from prover/z3wrapper.py (`norm_thms`); do not edit. -/\n"
+    # the statements of these library theorems (first definition found in library/*.json, as stored)
+    import glob
+    props = {}
+    for fn in sorted(glob.glob(os.path.join(ctx.repo, "library", "*.json"))):
+        try:
+            with open(fn, encoding="utf-8") as f:
+                data = json.load(f)
+        except Exception:  # noqa
+            continue
+        for it in data.get("content", []):
+            nm = it.get("name")
+            if it.get("ty") in ("thm", "thm.ax") and nm in dict(thms) and nm not in props:
+                pr = it.get("prop")
+                props[nm] = "".join(pr) if isinstance(pr, list) else str(pr)
+            elif str(it.get("ty", "")).startswith("def") and nm is not None and it.get("prop"):
+                # a definition `c` gives the theorem `c_def`; for an overloaded constant at type T: `T_c_def`
+                for cand in (nm + "_def", "%s_%s_def" % (str(it.get("type", "")).split(" ")[0], nm)):
+                    if cand in dict(thms) and cand not in props:
+                        pr = it.get("prop")
+                        props[cand] = "".join(pr) if isinstance(pr, list) else str(pr)
+    missing = [n for n, _ in thms if n not in props]
+    assert not missing, "untranslatable: statements of %s not found in library/*.json" % missing
+    esc = lambda x: x.replace("\\", "\\\\").replace('"', '\\"')
+    pitems = ",\n  ".join('("%s", "%s")' % (n, esc(props[n])) for n, _ in thms)
+    return ("/- GENERATED by harness/props/c06.py from prover/z3wrapper.py (`norm_thms`) and library/*.json; do not edit. -/\n"
             "namespace Holpy.C06.Gen\n\n"
             "/-- (theorem name, used right-to-left) in the order `norm_term` applies them -/\n"
             "def normThms : List (String × Bool) := [%s]\n\n"
+            "/-- the statements of these theorems in the library -/\n"
+            "def normThmProps : List (String × String) := [\n  %s]\n\n"
             "/-- `check_z3 = True` at module level -/\n"
             "def checkZ3Default : Bool := %s\n\n"
-            "end Holpy.C06.Gen\n" % (items, "true" if flag else "false"))
+            "end Holpy.C06.Gen\n" % (items, pitems, "true" if flag else "false"))
 
 
 def load_corpus(ctx):
@@ -2291,6 +2360,87 @@ def sympy_correspondence(ctx, H, asked):
                     H.term(g), H.term(c) if c else None, lines[k], w, o))
 
 
+def hol_to_se(H, t):
+    """reads a real holpy term the way sympywrapper's get_divisors / get_domain_conds / get_pole_divisors do"""
+    rec = lambda x: hol_to_se(H, x)
+    if t.is_number():
+        v = Fraction(t.dest_number())
+        return ["num", v.numerator, v.denominator]
+    if t.is_var():
+        return ["var", sexp.enc(t.name)]
+    if t.is_plus():
+        return ["add", rec(t.arg1), rec(t.arg)]
+    if t.is_minus():
+        return ["sub", rec(t.arg1), rec(t.arg)]
+    if t.is_times():
+        return ["mul", rec(t.arg1), rec(t.arg)]
+    if t.is_divides():
+        return ["div", rec(t.arg1), rec(t.arg)]
+    if t.is_uminus():
+        return ["neg", rec(t.arg)]
+    if t.is_nat_power() and t.arg.is_number():
+        return ["npow", rec(t.arg1), int(t.arg.dest_number())]
+    if t.is_real_power():
+        return ["rpow", rec(t.arg1), rec(t.arg)]
+    for nm in ("abs", "sqrt", "log", "exp", "sin", "cos", "tan", "cot", "sec", "csc"):
+        if t.is_comb(nm, 1):
+            return [nm, rec(t.arg)]
+    if t.is_less_eq():
+        return ["rel", "le", rec(t.arg1), rec(t.arg)]
+    if t.is_less():
+        return ["rel", "lt", rec(t.arg1), rec(t.arg)]
+    if t.is_greater_eq():
+        return ["rel", "ge", rec(t.arg1), rec(t.arg)]
+    if t.is_greater():
+        return ["rel", "gt", rec(t.arg1), rec(t.arg)]
+    if t.is_not():
+        return ["not", rec(t.arg)]
+    if t.is_equals():
+        return ["eqn", rec(t.arg1), rec(t.arg)]
+    raise OutsideModel("sympy fragment: %s" % t)
+
+
+def sympy_guards_correspondence(ctx, H, goals):
+    """the side conditions the real wrapper collects (get_divisors + get_pole_divisors + get_domain_conds)
+    against the model's `sympyGuards`, as multisets"""
+    sw = H.sw
+    fns = [getattr(sw, n, None) for n in ("get_divisors", "get_pole_divisors", "get_domain_conds")]
+    if not all(callable(f) for f in fns):
+        ctx.count("corr:sguards:interception-unavailable")
+        return
+    lines, impl, terms = [], [], []
+    for t in goals:
+        try:
+            gs = [["nonzero", hol_to_se(H, d)] for d in sw.get_divisors(t) + sw.get_pole_divisors(t)]
+            gs += [[kind, hol_to_se(H, d)] for kind, d in sw.get_domain_conds(t)]
+            line = ["sguards", hol_to_se(H, t)]
+        except OutsideModel:
+            ctx.count("corr:sguards:outside-model-language")
+            continue
+        except Exception as e:  # noqa
+            ctx.count("corr:sguards:impl-raises:" + type(e).__name__)
+            continue
+        lines.append(sexp.dumps(line))
+        impl.append(sorted(sexp.dumps(g) for g in gs))
+        terms.append(t)
+    out = ctx.lean_driver(EXE, lines) if lines else []
+    if out is None:
+        ctx.broken("correspondence:c06:driver", "model driver unavailable")
+        return
+    nd = 0
+    for k, o in enumerate(out):
+        try:
+            got = sorted(sexp.dumps(g) for g in sexp.loads(o)) if o != "()" else []
+        except Exception:  # noqa
+            got = [o]
+        ok = got == impl[k]
+        ctx.count("corr:sguards:%s" % ("agree" if ok else "DISAGREE"))
+        if not ok:
+            nd += 1
+            if nd <= 3:
+                ctx.broken("correspondence:c06:sguards", "goal=%s wrapper=%s model=%s" % (terms[k], impl[k], got))
+
+
 def sympy_history_stage(ctx, H):
     """The wrapper keeps module-level state (solveset cache): the same goal is asked under the
     open and the closed interval over the SAME end points, in varied orders within this one
@@ -2377,7 +2527,7 @@ def run(ctx):
         "the terms convert receives; their effect is covered by the oracles only"]
     ctx.assumptions += [
         "theorems are about the code with fixes/C06-1..11.patch applied; on a tree without them the oracle reports the defects as violations",
-        "solve_sound_partial assumes the valuation reads auxiliary constants as intended (freshness of generated names not proved in Lean)",
+        "solve_sound assumes only Z3Correct (the solver's unsat is right) and that of_nat n >= 0 in the field interpreting real",
         "Z3 timeouts (2 s quick / 4 s thorough, set in the harness process) count as rejections",
         "SymPy: sqrt (total in the library: sgn(x)*sqrt|x|), exp and log (arbitrary for arguments <= 0) are judged at exact points and "
         "numerically (mpmath, 50 digits, margin 1e-30) elsewhere; trigonometric functions and real powers are generated only through the "
@@ -2423,6 +2573,17 @@ def run(ctx):
     asked = sympy_stage(ctx, H)
     sympy_history_stage(ctx, H)
     sympy_correspondence(ctx, H, asked)
+    gterms = [H.term(g) for g, _, _ in asked]
+    try:
+        from syntax import parser
+        from logic import context
+        context.set_context("transcendentals", vars={"x": "real"})
+        for src in ("tan x > 0", "1 / cot x = tan x", "sec x * cos x = 1", "csc (x / 2) >= 1", "x ^ (1 / 2) >= 0",
+                    "sqrt (log x) >= 0", "tan (1 / x) < sec (sqrt x)", "~(cot (x ^ (2::nat)) = 0)", "1 / 0 + x / (1 / 2) >= 0"):
+            gterms.append(parser.parse_term(src))
+    except Exception as e:  # noqa
+        ctx.count("corr:sguards:fixed-terms-unavailable:" + type(e).__name__)
+    sympy_guards_correspondence(ctx, H, gterms)
     # 5. correspondence with the model
     correspondence(ctx, H, cz + goals + dgoals, "gen")
     must = ["z3:gen:accept", "z3:gen:reject", "z3:oracle:valid-by-oracle", "sympy:plain:accept", "sympy:interval:accept", "corr:gen:agree",
@@ -2459,21 +2620,29 @@ def replay(ctx, rp):
 
 
 MANIFEST = {
-    "text": "Z3 half: Lean model of z3wrapper.convert/solve_core (Python-level literal folding, z3py operand reflection, side tables); "
-            "theorems: convert preserves meaning exactly (all polarities, quantifiers, every ordered field and interpretation, arbitrary "
-            "values for untranslatable subterms and for uminus on nat), nat binders are relativised correctly, solve is sound when Z3's "
-            "unsat is right (partial: freshness of generated names). Tied to the code by differential runs of solve_core against the model "
-            "and by regenerating norm_thms/check_z3. Every acceptance of the real wrapper is judged by an independent encoding + exact "
-            "evaluation + brute force. SymPy half: ORACLE-JUDGED (every acceptance of solve_goal / solve_with_interval / the macro, also "
-            "under varied query histories within one process, is checked on rational grids with HOL semantics); the Lean side has only "
-            "theorems about the acceptance logic for an ABSTRACT value-preserving normaliser; solveGoal / solveWithInterval are tied to "
-            "the wrapper only at the level of that logic (their abstract inputs -- side checks, equality of normal forms, solveset answers "
-            "-- are recomputed by the harness with SymPy and the verdicts compared), their divisor arguments carry no proof obligation.",
-    "note": "Trusted: Lean kernel, Z3 and SymPy themselves, the harness (generators, term reader, independent encoding, evaluators), "
-            "norm_term/fologic.simplify (oracle-covered only; multi-argument functions are not generated: the wrapper crashes on them). "
-            "check_z3_off_unsound, untranslatable_conclusion_not_negated and stdQuant_std restate definitions (pins, not properties). "
-            "Accepted goals the independent oracle could not decide are counted in evidence coverage.oracle_undecided. Theorems hold for the "
-            "tree with fixes/C06-1..11.patch.",
+    "text": "Z3 half: Lean model of z3wrapper.convert/solve_core/solve (Python-level literal folding, z3py operand reflection, side "
+            "tables, bounded variant-name search). Theorems: convert preserves meaning exactly (convert_refines); the generated names "
+            "are fresh and the output capture-free (convert_names_fresh, via an invariant of the tables proved for every run); "
+            "solve_sound: if solve returns True and the solver's unsat is right (Z3Correct, the single explicit assumption), the "
+            "premises imply the conclusion in every standard model (any ordered field for real, standard quantifier ranges, nat "
+            "variables in N, arbitrary values for untranslatable subterms and uminus on nat); nat_ops_refine / casts_refine for the "
+            "encodings of nat subtraction, division, of_nat; norm_thms_valid + norm_term_preserves_meaning: the 17 equations norm_term "
+            "rewrites with (names and library statements regenerated and pinned) are valid and rewriting with valid equations in "
+            "meaning-respecting contexts preserves meaning. Tied to the code by differential runs of solve_core against the model "
+            "(assertion lists, capture check on both sides) and by the regenerated tables. Every acceptance of the real wrapper is "
+            "judged by an independent encoding + exact evaluation + brute force. SymPy half: ORACLE-JUDGED (every acceptance, also "
+            "under varied query histories, checked on rational grids with HOL semantics); Lean side: acceptance logic sound for an "
+            "ABSTRACT value-preserving normaliser, and sympy_guards_sufficient_partial: the side conditions of fixes C06-7/10/11 "
+            "(model sympyGuards, tied to get_divisors/get_pole_divisors/get_domain_conds by a stream) put every function of the goal "
+            "inside its domain on the whole interval.",
+    "note": "Trusted: Lean kernel; Z3 (Z3Correct) and SymPy themselves (that SymPy's answers establish the guards and that its "
+            "simplification preserves values inside the domains); the harness (generators, term readers, independent encoding, "
+            "evaluators); how a holpy term maps to the abstract term language of norm_term_preserves_meaning (the kernel's conversions "
+            "are not modelled; norm_term/fologic.simplify are otherwise oracle-covered); multi-argument functions are not generated. "
+            "check_z3_off_unsound, untranslatable_conclusion_not_negated, stdQuant_std restate definitions (pins); solve_sound_partial "
+            "is superseded by solve_sound. The model's name search is bounded and fails at the bound (Python's terminates earlier by "
+            "pigeonhole, not proved, not needed for soundness). Accepted goals the independent oracle could not decide are counted in "
+            "coverage.oracle_undecided.",
     "design_ref": "DESIGN.md 4/C06",
 }
 FINDINGS = [
